@@ -105,5 +105,11 @@ def c05d_entry_kept(ex, st):
             st.use_old -= 1
         if cur.eq(old):
             continue
-        fs.append(z3.ForAll([r], z3.Implies(z3.And(r >= 0, r < st.alloc0), z3.Select(cur, r) == z3.Select(old, r))))
+        body = z3.Implies(z3.And(r >= 0, r < st.alloc0), z3.Select(cur, r) == z3.Select(old, r))
+        try:
+            if '(lambda ' in cur.sexpr() or '(ite ' in cur.sexpr():
+                raise z3.Z3Exception('no pattern over a lambda')
+            fs.append(z3.ForAll([r], body, patterns=[z3.Select(cur, r)]))
+        except z3.Z3Exception:
+            fs.append(z3.ForAll([r], body))
     return v_bool(z3.And(*fs) if fs else z3.BoolVal(True))
